@@ -126,7 +126,13 @@ class SigmaModifier(ABC, Generic[T, R]):
                     f"Modifier {self.__class__.__name__} incompatible to value type of '{ val }'",
                     source=self.source,
                 )
-            r = self.modify(val)
+            try:
+                r = self.modify(val)
+            except UnicodeError as e:  # e.g. a lone surrogate character in a value that is encoded
+                raise SigmaValueError(
+                    f"Modifier {self.__class__.__name__} can't encode value: {str(e)}",
+                    source=self.source,
+                ) from e
             if isinstance(r, list):
                 return [cast(T, item) for item in r]
             else:
